@@ -602,7 +602,7 @@ pub fn run_threads(cfg: &ThrCfg) {
     }
   }
   // every receiver must now drain and observe Disconnected (or stop at its quota)
-  let deadline = std::time::Instant::now() + Duration::from_millis(2500);
+  let deadline = std::time::Instant::now() + Duration::from_millis(8000);
   let mut back: Vec<Option<Rx>> = vec![];
   for (i, j) in joins.into_iter().enumerate() {
     loop {
